@@ -18,7 +18,7 @@ func genSpec(t *rapid.T) FileSpec {
 		Alias:    rapid.Bool().Draw(t, "alias"),
 		Protolib: rapid.SampledFrom([]string{"", "", "custom", "gogo"}).Draw(t, "protolib"),
 		JSON:     rapid.Bool().Draw(t, "json"),
-		OtherPkg: rapid.SampledFrom([]string{"", "", "context", "drpc"}).Draw(t, "otherpkg"),
+		OtherPkg: rapid.SampledFrom([]string{"", "", "context", "drpc", "in", "x", "ctx", "srv"}).Draw(t, "otherpkg"),
 		TwoFiles: rapid.IntRange(0, 2).Draw(t, "twofiles") == 0,
 	}
 	// names are distinct after Go protobuf's own camel-casing by construction (no rejection)
@@ -34,10 +34,18 @@ func genSpec(t *rapid.T) FileSpec {
 	return f
 }
 
+var shadowedPkgNames = map[string]bool{"in": true, "x": true, "ctx": true, "c": true, "srv": true, "in1": true}
+
 func runSpec(f FileSpec) (r pbt.Result) {
 	if !f.wellFormed() {
 		r.Label("skipped_go_protobuf_name_clash")
 		return
+	}
+	if shadowedPkgNames[f.OtherPkg] && pbt.Excluded("F26") {
+		// known finding F26: the generated function bodies use in, x, ctx, c, srv, in1 as local names; an imported Go
+		// package of that name is shadowed there. Excluded by importing the message package under another name.
+		r.Excluded = "F26"
+		f.OtherPkg = ""
 	}
 	if f.schemeCollision() && pbt.Excluded("F12") {
 		r.Excluded = "F12"
